@@ -223,7 +223,7 @@ class Chipset(object):
             self.log.debug("invalid frame start sequence")
             raise IOError(errno.EIO, os.strerror(errno.EIO))
 
-        if not sum(frame) & 0xFF == 0:
+        if not sum(frame[:-1]) & 0xFF == 0:  # data + dcs, not the postamble
             self.log.error("frame data checksum error")
             raise IOError(errno.EIO, os.strerror(errno.EIO))
 
